@@ -8,51 +8,6 @@ From GVGen Require Import GenBodies GenInventory GenTables.
 Import ListNotations.
 Open Scope string_scope.
 
-Example O07_inv_panic_sites :
-  list_eqb panic_sites [
-  "goose.getFfi | fmt.Sprintf(""multiple ffis used %v"", seenFfis)";
-  "goose.Ctx.printGo | err.Error()";
-  "goose.Ctx.selectorMethod | ""expected struct""";
-  "goose.Ctx.coqRecurFunc | ""type checker doesn't have func""";
-  "goose.Ctx.identExpr | """"";
-  "goose.Ctx.stmts | ""bad ExprValUsage""";
-  "goose.Ctx.ifStmt | ""if statement with unexpected kind of else branch""";
-  "goose.Ctx.stmt | ""ExprValLocal usage should always be finalized""";
-  "goose.stringLitValue | ""unexpected non-string literal""";
-  "goose.stringLitValue | ""unexpected string literal value: "" + err.Error()";
-  "goose.Ctx.declsOrError | r";
-  "goose.sortedFiles | ""sortedFiles(): fileNames must match fileAsts""";
-  "goose.errorReporter.printField | err.Error()";
-  "goose.errorReporter.printGo | err.Error()";
-  "goose.errorReporter.prefixed | gooseError{err: err}";
-  "goose.sliceElem | fmt.Errorf(""expected slice type, got %v"", t)";
-  "goose.ptrElem | fmt.Errorf(""expected pointer type, got %v"", t)";
-  "coq.BinaryExpr.Coq | fmt.Sprintf(""unknown binop %d"", be.Op)";
-  "coq.Binding.AddTo | ""no support for destructuring more than 4 return values"""
-] = true.
-Proof. vm_compute. reflexivity. Qed.
-
-Example O07_inv_assert_sites :
-  list_eqb assert_sites [
-  "goose.Ctx.packageMethod | f.X.(*ast.Ident)";
-  "goose.Ctx.selectorMethod | deref.(*types.Named)";
-  "goose.Ctx.coqRecurFunc | obj.(*types.Func)";
-  "goose.Ctx.varDeclStmt | decl.Specs[0].(*ast.ValueSpec)";
-  "goose.Ctx.constDecl | spec.(*ast.ValueSpec)";
-  "goose.Ctx.globalVarDecl | spec.(*ast.ValueSpec)";
-  "goose.Ctx.imports | s.(*ast.ImportSpec)";
-  "goose.Ctx.maybeDecls | d.Specs[0].(*ast.TypeSpec)";
-  "goose.Ctx.mapType | ctx.typeOf(e).Underlying().(*types.Map)";
-  "goose.Ctx.arrayType | ctx.typeOf(e).(*types.Array)"
-] = true.
-Proof. vm_compute. reflexivity. Qed.
-
-Example O07_inv_recover_sites :
-  list_eqb recover_sites [
-  "goose.Ctx.declsOrError"
-] = true.
-Proof. vm_compute. reflexivity. Qed.
-
 Example O07_body_goose_Ctx_declsOrError :
   has_body func_bodies "goose.Ctx.declsOrError"
     "func(stmt ast.Decl) (decls []coq.Decl, err error)"
@@ -165,4 +120,49 @@ Example O07_body_goosecmd_translate :
   has_body func_bodies "goosecmd.translate"
     "func(pkgPatterns []string, outRootDir string, modDir string, ignoreErrors bool, tr goose.TranslationConfig)"
     "{ red := color.New(color.FgRed).SprintFunc() fs, errs, patternError := tr.TranslatePackages(modDir, pkgPatterns...) if patternError != nil { fmt.Fprintln(os.Stderr, red(patternError.Error())) os.Exit(1) } someError := false for i, f := range fs { err := errs[i] if err != nil { fmt.Fprintln(os.Stderr, red(err.Error())) someError = true if !ignoreErrors || f.PkgPath == """" { continue } } outFile := path.Join(outRootDir, coq.ImportToPath(f.PkgPath, f.GoPackage)) outDir := path.Dir(outFile) err = os.MkdirAll(outDir, 0777) if err != nil { fmt.Fprintln(os.Stderr, err.Error()) fmt.Fprintln(os.Stderr, red(""could not create output directory"")) } err = writeFileIfChanged(outFile, coqFileContents(f), 0666) if err != nil { fmt.Fprintln(os.Stderr, err.Error()) fmt.Fprintln(os.Stderr, red(""could not write output"")) os.Exit(1) } } if someError { os.Exit(1) } }" = true.
+Proof. vm_compute. reflexivity. Qed.
+
+Example O07_inv_panic_sites :
+  list_eqb panic_sites [
+  "goose.getFfi | fmt.Sprintf(""multiple ffis used %v"", seenFfis)";
+  "goose.Ctx.printGo | err.Error()";
+  "goose.Ctx.selectorMethod | ""expected struct""";
+  "goose.Ctx.coqRecurFunc | ""type checker doesn't have func""";
+  "goose.Ctx.identExpr | """"";
+  "goose.Ctx.stmts | ""bad ExprValUsage""";
+  "goose.Ctx.ifStmt | ""if statement with unexpected kind of else branch""";
+  "goose.Ctx.stmt | ""ExprValLocal usage should always be finalized""";
+  "goose.stringLitValue | ""unexpected non-string literal""";
+  "goose.stringLitValue | ""unexpected string literal value: "" + err.Error()";
+  "goose.Ctx.declsOrError | r";
+  "goose.sortedFiles | ""sortedFiles(): fileNames must match fileAsts""";
+  "goose.errorReporter.printField | err.Error()";
+  "goose.errorReporter.printGo | err.Error()";
+  "goose.errorReporter.prefixed | gooseError{err: err}";
+  "goose.sliceElem | fmt.Errorf(""expected slice type, got %v"", t)";
+  "goose.ptrElem | fmt.Errorf(""expected pointer type, got %v"", t)";
+  "coq.BinaryExpr.Coq | fmt.Sprintf(""unknown binop %d"", be.Op)";
+  "coq.Binding.AddTo | ""no support for destructuring more than 4 return values"""
+] = true.
+Proof. vm_compute. reflexivity. Qed.
+
+Example O07_inv_assert_sites :
+  list_eqb assert_sites [
+  "goose.Ctx.packageMethod | f.X.(*ast.Ident)";
+  "goose.Ctx.selectorMethod | deref.(*types.Named)";
+  "goose.Ctx.coqRecurFunc | obj.(*types.Func)";
+  "goose.Ctx.varDeclStmt | decl.Specs[0].(*ast.ValueSpec)";
+  "goose.Ctx.constDecl | spec.(*ast.ValueSpec)";
+  "goose.Ctx.globalVarDecl | spec.(*ast.ValueSpec)";
+  "goose.Ctx.imports | s.(*ast.ImportSpec)";
+  "goose.Ctx.maybeDecls | d.Specs[0].(*ast.TypeSpec)";
+  "goose.Ctx.mapType | ctx.typeOf(e).Underlying().(*types.Map)";
+  "goose.Ctx.arrayType | ctx.typeOf(e).(*types.Array)"
+] = true.
+Proof. vm_compute. reflexivity. Qed.
+
+Example O07_inv_recover_sites :
+  list_eqb recover_sites [
+  "goose.Ctx.declsOrError"
+] = true.
 Proof. vm_compute. reflexivity. Qed.
